@@ -946,8 +946,10 @@ class Response(object):
         headers = self.headers
 
         self.status = '%s %s' % (code, reason)
+        # The reason phrase may carry application or request data: encode it
+        # like any other header item (control characters are deleted).
         self.output_status = ntob(str(code), 'ascii') + \
-            b' ' + headers.encode(reason)
+            b' ' + headers.encode_header_item(reason)
 
         if self.stream:
             # The upshot: wsgiserver will chunk the response if
@@ -972,15 +974,15 @@ class Response(object):
         # Transform our header dict into a list of tuples.
         self.header_list = h = headers.output()
 
-        cookie = self.cookie.output()
-        if cookie:
-            for line in cookie.split('\r\n'):
-                name, value = line.split(': ', 1)
-                if isinstance(name, str):
-                    name = name.encode('ISO-8859-1')
-                if isinstance(value, str):
-                    value = headers.encode(value)
-                h.append((name, value))
+        # Emit exactly one header line per morsel, encoded like any other
+        # header item, so that a CR LF inside a cookie attribute can neither
+        # reach the wire nor start a header line of its own.
+        for _, morsel in sorted(self.cookie.items()):
+            name, value = morsel.output().split(': ', 1)
+            h.append((
+                headers.encode_header_item(name),
+                headers.encode_header_item(value),
+            ))
 
 
 class LazyUUID4(object):
